@@ -278,6 +278,9 @@ def _entry_for_fn(ur, fnname, line):
     return None
 
 
+PANIC_SITE = re.compile(r'^(debug_)?assert(_eq|_ne)?!\s*\(|^panic!\s*\(|^unreachable!\s*\(|^todo!\s*\(|^unimplemented!\s*\(|\.unwrap\(\)$|\.expect\([^()]*\)$')
+
+
 def classify(ur):
     U = ur.unit
     gen_lines = ur.text.split('\n')
@@ -320,6 +323,10 @@ def classify(ur):
         if kind == 'assertion' and not in_code and not sp_site.get('macro'):
             # a proof `assert(..)` written in the sidecar
             kind = 'proof-assertion'
+        site_txt_ = ' '.join((sp_site['hl'] or sp_site['text']).split())
+        if kind == 'precondition' and (in_code or sp_site.get('macro')) and PANIC_SITE.search(site_txt_):
+            # the failed "precondition" is that of a panic: `assert!(c)`, `x.unwrap()`, `panic!(..)` of /repo's own text would fire
+            kind = 'assertion'
         # for a precondition failure name the callee clause
         clause_text = ' '.join(s['hl'] or s['text'] for s in clause_sp)[:400]
         calls_auto = None
